@@ -645,6 +645,13 @@ class RestAPI(object):
                     )
                     return aws_error("StateMachineDoesNotExist"), 400
 
+                """
+                Work on a copy of the stored State Machine, so that a request
+                which is refused further down leaves the stored one untouched.
+                It is written back to the store once everything has been checked.
+                """
+                state_machine = dict(state_machine)
+
                 role_arn = params.get("roleArn")
                 if role_arn:
                     if not valid_role_arn(role_arn):
